@@ -68,6 +68,10 @@ def to_sympy(e, env, reads=None):
             return tbl[f](a[0])
         if f == 'std::norm' and len(a) == 1:
             return sp.Abs(a[0]) ** 2
+        if f.split('::')[-1] in ('copysign', 'copysignf') and len(a) == 2:
+            return sp.Abs(a[0]) * sp.sign(a[1])      # magnitude of the first, sign of the second
+        if f.split('::')[-1] in ('fabs',) and len(a) == 1:
+            return sp.Abs(a[0])
         raise Unfoldable('call ' + f)
     if k == 'construct' and 'complex' in e['type']:
         a = [to_sympy(x, env, reads) for x in SX.real_args(e)]
